@@ -80,6 +80,49 @@ Section IterAuth.
       rewrite Hfa, Hk, key_eqb_refl in Hc. discriminate.
   Qed.
 
+  (** When an event cites several auth events for one slot, the one listed LAST decides (before
+      the partial state is laid over it): a function of the list order, which is input - no
+      enumeration of a hash container enters.  No uniqueness hypothesis.  (Seeded C06-9 collected
+      the IDs into a HashSet first; the correspondence runs report it on duplicate-slot events.) *)
+  Definition own_step (k : key) (acc : option event) (a : id) : option event :=
+    match fetch st a with
+    | Some x => match key_of x with
+                | Some k' => if key_eqb k' k then Some x else acc
+                | None => acc
+                end
+    | None => acc
+    end.
+
+  Fixpoint own_last_from (k : key) (auths : list id) (init : option event) : option event :=
+    match auths with
+    | [] => init
+    | a :: r => own_last_from k r (own_step k init a)
+    end.
+
+  Lemma own_last_from_init k : forall auths init,
+    own_last_from k auths init
+    = match own_last_from k auths None with Some x => Some x | None => init end.
+  Proof.
+    induction auths as [|a r IH]; intros init; cbn [own_last_from]; [reflexivity|].
+    unfold own_step. destruct (fetch st a) as [x|]; [|apply IH].
+    destruct (key_of x) as [k'|]; [|apply IH]. destruct (key_eqb k' k); [|apply IH].
+    rewrite (IH (Some x)). destruct (own_last_from k r None); reflexivity.
+  Qed.
+
+  Theorem own_auth_map_last_wins : forall auths acc m,
+    own_auth_map st auths acc = Ok m ->
+    forall k, klookup k m = match own_last_from k auths None with Some x => Some x | None => klookup k acc end.
+  Proof.
+    induction auths as [|a r IH]; intros acc m Hm k; cbn [own_auth_map] in Hm.
+    - inversion Hm; subst m. reflexivity.
+    - cbn [own_last_from]. unfold own_step.
+      destruct (fetch st a) as [x|]; [|exact (IH acc m Hm k)].
+      destruct (key_of x) as [k'|]; [|discriminate].
+      rewrite (IH _ m Hm k). cbn [klookup]. destruct (key_eqb k' k).
+      + rewrite (own_last_from_init k r (Some x)). destruct (own_last_from k r None); reflexivity.
+      + reflexivity.
+  Qed.
+
   Lemma own_map_eq e m : auth_keys_unique e -> own_auth_map st (e_auth e) [] = Ok m ->
     forall k, klookup k m = own_auth st e k.
   Proof.
